@@ -192,10 +192,12 @@ def sigma_filter(filename, region, step_size, box_size, shape, domask,
             logging.error("fix your file to be more sane")
             raise Exception("Too many NAXIS")
 
-    # Manually scale the data if BSCALE is not 1.0
+    # Manually scale the data if BSCALE is not 1.0 / BZERO is not 0.0
     header = fits.getheader(filename)
     if 'BSCALE' in header:
-        data *= header['BSCALE']
+        data = data * header['BSCALE']
+    if 'BZERO' in header:
+        data = data + header['BZERO']
 
     # force float64 for consistency
     data = data.astype(np.float64)
@@ -508,23 +510,27 @@ def filter_image(im_name, out_base, step_size=None, box_size=None,
         bkg_out = '_'.join([os.path.expanduser(out_base), 'bkg.fits'])
         rms_out = '_'.join([os.path.expanduser(out_base), 'rms.fits'])
 
-        # Test for BSCALE and scale back if needed before we write to a file
+        # Test for BSCALE/BZERO and scale back if needed before we write to a
+        # file (the output files carry the scaling cards of the input header)
         bscale = 1.0
         if 'BSCALE' in header:
             bscale = header['BSCALE']
+        bzero = 0.0
+        if 'BZERO' in header:
+            bzero = header['BZERO']
 
         # compress
         if compressed:
-            hdu = fits.PrimaryHDU(bkg/bscale)
+            hdu = fits.PrimaryHDU((bkg-bzero)/bscale)
             hdu.header = copy.deepcopy(header)
             hdulist = fits.HDUList([hdu])
             compress(hdulist, step_size[0], bkg_out)
             hdulist[0].header = copy.deepcopy(header)
-            hdulist[0].data = rms/bscale
+            hdulist[0].data = (rms-bzero)/bscale
             compress(hdulist, step_size[0], rms_out)
         else:
-            write_fits(bkg/bscale, header, bkg_out)
-            write_fits(rms/bscale, header, rms_out)
+            write_fits((bkg-bzero)/bscale, header, bkg_out)
+            write_fits((rms-bzero)/bscale, header, rms_out)
 
     return bkg, rms
 
